@@ -302,7 +302,7 @@ static const struct ares_socket_functions_ex et_sockfuncs = {
   1, 0, et_asocket, et_aclose, et_asetsockopt, et_aconnect, et_arecvfrom, et_asendto, et_agetsockname,
   NULL, NULL, NULL
 };
-static struct ares_socket_functions_ex et_sockfuncs_tfo;
+static struct ares_socket_functions_ex et_sockfuncs_var;
 
 /* ---- minimal DNS (independent of the library's codec) ---- */
 typedef struct {
